@@ -78,45 +78,6 @@ theorem ibigSub_spec (W : Nat) (hW : 1 ≤ W) (a b : SRepr) (form : Nat) (ha : a
   · refine ⟨?_, hs'.2⟩
     rw [hs'.1]; simp <;> omega
 
--- ------------------------------------------------------------------ mul_word_in_place_with_carry
-
-theorem mul_add_add_lt_sq {B a b c d : Nat} (ha : a < B) (hb : b < B) (hc : c < B) (hd : d < B) :
-    a * b + c + d < B * B := by
-  obtain ⟨B', rfl⟩ : ∃ B', B = B' + 1 := ⟨B - 1, by omega⟩
-  have h := Nat.mul_le_mul (show a ≤ B' by omega) (show b ≤ B' by omega)
-  have e : (B' + 1) * (B' + 1) = B' * B' + 2 * B' + 1 := by ring
-  omega
-
-theorem mul_add_lt_sq {B a b c : Nat} (ha : a < B) (hb : b < B) (hc : c < B) :
-    a * b + c < B * B := by
-  have := mul_add_add_lt_sq ha hb hc (show 0 < B by omega)
-  omega
-
-theorem mulWordInPlace_spec (W : Nat) (ws : List Nat) (rhs c : Nat) (hw : IsWords W ws)
-    (hr : rhs < 2 ^ W) (hc : c < 2 ^ W) :
-    val W (mulWordInPlace W ws rhs c).1 + 2 ^ (W * ws.length) * (mulWordInPlace W ws rhs c).2
-      = val W ws * rhs + c ∧
-    (mulWordInPlace W ws rhs c).1.length = ws.length ∧ IsWords W (mulWordInPlace W ws rhs c).1 ∧
-    (mulWordInPlace W ws rhs c).2 < 2 ^ W := by
-  induction ws generalizing c with
-  | nil => simp [mulWordInPlace, IsWords.nil, hc]
-  | cons a as ih =>
-    have hp : 0 < 2 ^ W := Nat.two_pow_pos W
-    have ha := hw.head
-    have hv : a * rhs + c < 2 ^ W * 2 ^ W := mul_add_lt_sq ha hr hc
-    have hq : (a * rhs + c) / 2 ^ W < 2 ^ W := (Nat.div_lt_iff_lt_mul hp).mpr hv
-    have hdm := Nat.div_add_mod (a * rhs + c) (2 ^ W)
-    obtain ⟨i1, i2, i3, i4⟩ := ih ((a * rhs + c) / 2 ^ W) hw.tail hq
-    simp only [mulWordInPlace, val_cons, List.length_cons]
-    refine ⟨?_, by simp [i2], IsWords.cons (Nat.mod_lt _ hp) i3, i4⟩
-    rw [pow_mul_succ]
-    generalize mulWordInPlace W as rhs ((a * rhs + c) / 2 ^ W) = res at i1
-    obtain ⟨r, c'⟩ := res
-    simp only at i1 ⊢
-    have e : 2 ^ W * (val W r + 2 ^ (W * as.length) * c')
-        = 2 ^ W * (val W as * rhs + (a * rhs + c) / 2 ^ W) := by rw [i1]
-    linarith
-
 -- ------------------------------------------------------------------ shl_in_place
 
 /-- one word shifted left: the low part is a multiple of `2^s`, so OR-ing a carry `< 2^s` adds it -/
@@ -377,12 +338,12 @@ theorem mulLargeFrontier_spec (W : Nat) (hW : 1 ≤ W) (lhs rhs : List Nat) :
     (schoolbook, chunk splitting, Karatsuba refined; Toom-3 same-length kernel at the frontier) on a
     zero-filled buffer, whose `debug_assert_zero!` carry is zero; equal operands use the frontier
     squaring kernel. -/
-theorem squareLarge_spec (W : Nat) (hW : 3 ≤ W) (ws : List Nat) (hw : IsWords W ws) (hne : ws ≠ []) :
+theorem squareLarge_spec (W : Nat) (hW : 4 ≤ W) (ws : List Nat) (hw : IsWords W ws) (hne : ws ≠ []) :
     (squareLarge W ws).value W = val W ws * val W ws ∧ (squareLarge W ws).Canon W := by
   obtain ⟨h1, h2⟩ := sqrBuffer_spec W hW ws hw hne
   exact ⟨by unfold squareLarge; rw [fromBuffer_value, h1], fromBuffer_canon W _ h2⟩
 
-theorem mulLarge_spec (W : Nat) (hW : 3 ≤ W) (lhs rhs : List Nat) (hl : IsWords W lhs)
+theorem mulLarge_spec (W : Nat) (hW : 4 ≤ W) (lhs rhs : List Nat) (hl : IsWords W lhs)
     (hr : IsWords W rhs) :
     (mulLarge W lhs rhs).value W = val W lhs * val W rhs ∧ (mulLarge W lhs rhs).Canon W := by
   unfold mulLarge
@@ -402,7 +363,7 @@ theorem mulLarge_spec (W : Nat) (hW : 3 ≤ W) (lhs rhs : List Nat) (hl : IsWord
     exact ⟨by rw [fromBuffer_value, h2], fromBuffer_canon W _ h4⟩
 
 /-- the carry that `mul::multiply` asserts to be zero is zero -/
-theorem multiply_carry_zero (W : Nat) (hW : 3 ≤ W) (lhs rhs : List Nat) (hl : IsWords W lhs)
+theorem multiply_carry_zero (W : Nat) (hW : 4 ≤ W) (lhs rhs : List Nat) (hl : IsWords W lhs)
     (hr : IsWords W rhs) :
     (addSignedMul W (lhs.length + rhs.length) (List.replicate (lhs.length + rhs.length) 0) false
       lhs rhs).2 = 0 := by
@@ -412,7 +373,7 @@ theorem multiply_carry_zero (W : Nat) (hW : 3 ≤ W) (lhs rhs : List Nat) (hl : 
   exact (upd_zero_product W (lhs.length + rhs.length) _ _ _ hc
     (mul_lt_pow_int W lhs rhs hl hr _ (Nat.le_refl _))).1
 
-theorem TRepr.mul_spec (W : Nat) (hW : 3 ≤ W) (a b : TRepr) (ha : a.Canon W) (hb : b.Canon W) :
+theorem TRepr.mul_spec (W : Nat) (hW : 4 ≤ W) (a b : TRepr) (ha : a.Canon W) (hb : b.Canon W) :
     (a.mul W b).value W = a.value W * b.value W ∧ (a.mul W b).Canon W := by
   cases a with
   | small x =>
@@ -427,7 +388,7 @@ theorem TRepr.mul_spec (W : Nat) (hW : 3 ≤ W) (a b : TRepr) (ha : a.Canon W) (
     | small y => exact mulLargeDword_spec W ws y ha.large_words hb
     | large w1 => exact mulLarge_spec W hW ws w1 ha.large_words hb.large_words
 
-theorem TRepr.sqr_spec (W : Nat) (hW : 3 ≤ W) (a : TRepr) (ha : a.Canon W) :
+theorem TRepr.sqr_spec (W : Nat) (hW : 4 ≤ W) (a : TRepr) (ha : a.Canon W) :
     (a.sqr W).value W = a.value W * a.value W ∧ (a.sqr W).Canon W := by
   cases a with
   | small d =>
@@ -442,7 +403,7 @@ theorem TRepr.sqr_spec (W : Nat) (hW : 3 ≤ W) (a : TRepr) (ha : a.Canon W) :
   | large ws => exact squareLarge_spec W hW ws ha.large_words ha.large_ne_nil
 
 /-- `impl_ibig_mul`: sign rule on top of an exact magnitude product -/
-theorem ibigMul_spec (W : Nat) (hW : 3 ≤ W) (a b : SRepr) (ha : a.WF W) (hb : b.WF W) :
+theorem ibigMul_spec (W : Nat) (hW : 4 ≤ W) (a b : SRepr) (ha : a.WF W) (hb : b.WF W) :
     (ibigMul W a b).value W = a.value W * b.value W ∧ (ibigMul W a b).WF W := by
   obtain ⟨an, am⟩ := a
   obtain ⟨bn, bm⟩ := b
